@@ -32,7 +32,7 @@ def c13_extra(ctx):
     root = proc.scratch_root()
     try:
         reports = []
-        runs = 9 if ctx["tier"] == "thorough" else 4
+        runs = 16 if ctx["tier"] == "thorough" else 8
         for k in range(runs):
             rnd = random.Random(ctx["seed"] * 1000 + k)
             d = os.path.join(root, f"run{k}")
@@ -439,6 +439,7 @@ PROPS = {
     },
     "C15": {
         "theorems": {
+            "Solstat.Props.C15b": ["swapFile_invol", "offsets_fileNo_irrelevant", "lines_fileNo_irrelevant", "lines_fileNo_irrelevant_all"],
             "Solstat.Props.C16": ["entry_local"],
             "Solstat.Props.C15": ["no_global_state"],
             "Solstat.Props.C03": ["analyzeDir_exact"],
@@ -447,7 +448,7 @@ PROPS = {
         "kinds": ["DIR", "THREADS"],
         "assumptions": [
             "determinism and repetition are properties of functions in the model; for the code they rest on the absence of shared state (theorem no_global_state on the regenerated inventory) and on the 16-thread stress comparison (runtime part, not proved)",
-            "independence of the file number is observed on every file (two file numbers per call, generator statistic file_number_dependent_results must be 0); its proof is the equivariance of C17",
+            "independence of the file number: theorem lines_fileNo_irrelevant_all (renumbering is a relocation; every detector is equivariant), given that the parser puts the file number into the locations and nowhere else — observed on every file (two file numbers per call, generator statistic file_number_dependent_results must be 0)",
         ],
     },
     "C11": {
@@ -475,6 +476,7 @@ PROPS = {
     },
     "C12": {
         "theorems": {
+            "Solstat.Props.C12Text": ["readTotal_render", "opt_total_text", "vuln_total_text"],
             "Solstat.Props.C12": ["entryCount_blocks", "opt_total", "totalEntries_partition", "heading_literals_ok", "entryCount_severityPart",
                                   "vuln_total", "severity_table", "blocks_eq_nil", "heading_iff", "part_iff"],
         },
@@ -531,6 +533,7 @@ PROPS = {
             ],
             "Solstat.Props.MapLoc": ["allNodes_mapLoc", "extract_mapLoc", "mapLoc_comp", "mapLoc_id", "mapLoc_leftInverse", "mapLoc_congr",
                                      "filterMap_detector_equivariant"],
+            "Solstat.Props.C17s": ["reported_in_tree", "reported_in_tree_all", "no_finding_outside_nodes"],
             "Solstat.Props.C17p": ["matchVersionAt_append", "scanVersion_append", "scanVersion_respace", "versionOfValue_respace"],
             "Solstat.Props.C17b": [
                 "listEquiv_of_fwd", "optEquiv_of_fwd", "contractFunctions_mapLoc", "storageVarTable_mapLoc", "stripSubscripts_mapLoc'",
